@@ -169,7 +169,12 @@ def execute(scn):
                                                       'ascii-non-hex-accepted' if why.startswith('non-hex') else 'no-valid-frame'),
                'delivered_as': d['cls'] if d['cls'] in ('IllegalFunctionRequest', 'ExceptionResponse') else 'message'}
         if framing == 'binary' and rc.has_delim(given):
-            sig['binary_delim'] = any(rc.has_delim(c[1:-1]) for c in chunks)
+            # the escaping finding is about delimiter bytes INSIDE a frame: between the first '{' and the last
+            # '}' of a chunk (stray bytes in front of or behind a frame are not inside it)
+            def interior(c):
+                a, b = c.find(b'{'), c.rfind(b'}')
+                return c[a + 1:b] if 0 <= a < b else b''
+            sig['binary_delim'] = any(rc.has_delim(interior(c)) for c in chunks)
         out['violations'].append({'sig': sig, 'msg': 'delivered %s unit=%s tid=%s pdu=%s: %s; given=%s'
                                   % (d['cls'], d['unit'], d['tid'], (d['pdu'] or b'').hex()[:40], why, given.hex()[:80])})
     out['probes']['delivered_after_corruption'] = len(res.delivered)
